@@ -134,7 +134,7 @@ static LOG_TRACE: std::sync::atomic::AtomicBool = std::sync::atomic::AtomicBool:
 fn ctx_head(profile: &str, seed: u64, run: u64, exec_i: u64, layouts: &[u64], faults: &Faults) -> String {
     let l: Vec<String> = layouts.iter().map(|x| x.to_string()).collect();
     let lt = LOG_TRACE.load(Relaxed) as u8;
-    let build = if cfg!(debug_assertions) { "checked" } else { "relnd" };
+    let build = if cfg!(debug_assertions) { "checked" } else if cfg!(feature = "std") { "relnd" } else { "relnd-nostd" };
     format!(
         "{{\"type\":\"violation\",\"profile\":\"{profile}\",\"seed\":{seed},\"run\":{run},\"exec\":{exec_i},\"build\":\"{build}\",\"log_trace\":{lt},\"layouts\":[{}],\"faults\":\"{}\",\"ops\":\"",
         l.join(","),
@@ -430,6 +430,15 @@ fn do_run(rc: &RunCfg<'_>, run: u64) {
                 if o.fired_panics > 0 && o.delta[St::steps as usize] > 0 {
                     st(St::p_panic_after_continue, 1);
                 }
+                note_case(p.name, &o, &f, 0);
+                run_digest = fnv(run_digest, o.digest);
+            }
+            // ... the same positions with the panic at the START of the destructor (what
+            // the value owns is then released during the unwind)
+            for k in 0..n {
+                let f = Faults { panic_early_at: vec![k], inline: base.inline.clone(), ..Faults::default() };
+                let head = ctx_head(p.name, rc.seed, run, 500 + k as u64, &[layout_seed], &f);
+                let o = execute(&head, Source::Explicit(&base.ops), &f, layout_seed, &opts);
                 note_case(p.name, &o, &f, 0);
                 run_digest = fnv(run_digest, o.digest);
             }
